@@ -124,6 +124,12 @@ func (w *srvWorld) runScript(name string, ops []Op) {
 		case "8":
 			b := reqBytes(op.IDs...)
 			_, _ = c.Write(b[:8])
+		case "N": // several messages in one write
+			var b []byte
+			for _, id := range op.IDs {
+				b = append(b, reqBytes(id)...)
+			}
+			_, _ = c.Write(b)
 		case "2": // two messages in one write
 			b := append(reqBytes(op.IDs[0]), reqBytes(op.IDs[1])...)
 			_, _ = c.Write(b)
@@ -220,6 +226,7 @@ func (w *srvWorld) expectResponse(name string, oi int, c *Conn, ids []string) {
 
 func serverScenario(cfg SrvCfg) func() {
 	return func() {
+		resetPackages()
 		w := &srvWorld{cfg: cfg, lis: &Listener{Cap: cfg.PipeCap}, gates: map[string]*mc.Var[bool]{}}
 		for _, g := range cfg.Gates {
 			w.gates[g] = &mc.Var[bool]{}
@@ -265,6 +272,8 @@ func init() {
 	srv("srv-req-close-smallpipe", "one request into a 16-byte pipe nobody reads, then close (write loop blocked mid-response)", SrvCfg{PipeCap: 16, Conns: [][]Op{{W("ok1"), OpClose}}})
 	srv("srv-two-seq", "two sequential requests on one connection", SrvCfg{Conns: [][]Op{{W("ok1"), R("ok1"), W("terr2"), R("terr2"), OpClose}}})
 	srv("srv-pipelined", "two requests in one write, then read both", SrvCfg{Conns: [][]Op{{{K: "2", IDs: []string{"ok1", "perr2"}}, R("ok1", "perr2"), OpClose}}})
+	srv("srv-3pipelined-close", "three requests written back to back, then close without reading anything (requests still queued in the connection when it ends)", SrvCfg{Conns: [][]Op{{W("ok1"), W("ok2"), W("ok3"), OpClose}}})
+	srv("srv-4pipelined-read1-close", "four requests in one write, read the first response, then close", SrvCfg{Conns: [][]Op{{{K: "N", IDs: []string{"ok1", "ok2", "ok3", "ok4"}}, R("ok1"), OpClose}}})
 	srv("srv-panics", "batch whose handlers panic with string/error/Stringer/struct/nil-deref values", SrvCfg{Conns: [][]Op{{W("panicS1", "panicE2", "panicT3", "panicX4", "panicN5", "ok6"), R("panicS1+panicE2+panicT3+panicX4+panicN5+ok6"), OpClose}}})
 	srv("srv-half-then-close", "half a request then close", SrvCfg{Conns: [][]Op{{{K: "H", IDs: []string{"ok1"}}, OpClose}}})
 	srv("srv-4bytes-then-close", "4 bytes then close", SrvCfg{Conns: [][]Op{{{K: "4", IDs: []string{"ok1"}}, OpClose}}})
